@@ -555,14 +555,14 @@ func runC18(c *report.Ctx) {
 		for _, s := range calls(worker, pushImport) {
 			if an.AnyAtom(p.GuardsOf(s), func(a an.Atom) bool {
 				// !fin where fin derives from asyncImport#0
-				return a.Op == token.ILLEGAL && !a.Truth && strings.Contains(p.Desc(a.X), "asyncImport")
+				return a.Op == token.ILLEGAL && !a.Truth && strings.Contains(p.Desc(a.X), nm(asyncImport))
 			}) {
 				okI = true
 			}
 		}
 		for _, s := range calls(worker, pushRemove) {
 			if an.AnyAtom(p.GuardsOf(s), func(a an.Atom) bool {
-				return a.Op == token.NEQ && strings.Contains(p.Desc(a.X)+p.Desc(a.Y), "asyncRemove") && strings.Contains(p.Desc(a.X)+p.Desc(a.Y), "ErrTaskAbort")
+				return a.Op == token.NEQ && strings.Contains(p.Desc(a.X)+p.Desc(a.Y), nm(ar)) && strings.Contains(p.Desc(a.X)+p.Desc(a.Y), "ErrTaskAbort")
 			}) {
 				okR = true
 			}
